@@ -190,6 +190,8 @@ func H_c08_relay() {
 	rids := make([]uint32, k)
 	known := make([]bool, k)
 	var plain []byte
+	var lastDelay, lastJitter uint32
+	anyKnown := false
 	for i := 0; i < k; i++ {
 		rids[i] = uint32(0x1000 + i)
 		known[i] = nondet_bool("outstanding-for-child")
@@ -198,7 +200,11 @@ func H_c08_relay() {
 		} else {
 			A.Tasks = append(A.Tasks, Job{RequestID: rids[i], Command: COMMAND_SLEEP})
 		}
-		body := verifPutBE32(verifPutBE32(nil, nondet_u32("delay")), nondet_u32("jitter"))
+		delay, jitter := nondet_u32("delay"), nondet_u32("jitter")
+		if known[i] {
+			lastDelay, lastJitter, anyKnown = delay, jitter, true
+		}
+		body := verifPutBE32(verifPutBE32(nil, delay), jitter)
 		if i > 0 {
 			plain = verifPutBE32(plain, COMMAND_SLEEP)
 			plain = verifPutBE32(plain, rids[i])
@@ -238,5 +244,10 @@ func H_c08_relay() {
 		}
 	}
 	verif_assert(consolesB == nKnown, "exactly the callbacks outstanding for the child produce output, attributed to the child session")
+	if anyKnown {
+		// the body of every relayed callback is decrypted exactly once with the child's key
+		verif_assert(B.Info.SleepDelay == int(lastDelay), "the child records the value reported by its last relayed callback (delay)")
+		verif_assert(B.Info.SleepJitter == int(lastJitter), "the child records the value reported by its last relayed callback (jitter)")
+	}
 	verif_witness()
 }
